@@ -51,7 +51,7 @@ def tables():
                 parts.append(line.strip().strip("(*)").strip())
             elif parts or line.strip():
                 break
-        head = re.sub(r"\s+", " ", " ".join(parts)).strip()
+        head = re.sub(r"\s+", " ", " ".join(parts)).strip().replace("|", "\\|")
         rows.append(f"| `{os.path.basename(f)}` | {len(src.splitlines())} | {head[:230]} |")
     t["specs"] = "\n".join(rows)
     return t
